@@ -106,7 +106,7 @@ class ExcelCompiler:
                 self.log.warning(
                     f"Initialized with cycles: {self.cycles}, while workbook says: {wb_cycles}")
 
-            if self.cycles:
+            if self.cycles and not isinstance(self.cycles, dict):
                 self.cycles = dict(
                     iterations=self.excel.workbook.calculation.iterateCount,
                     tolerance=self.excel.workbook.calculation.iterateDelta,
